@@ -10,9 +10,9 @@ def gen_pred_case(rng, model=None, regime=None, kmax=8, pmax=8):
     model = model or rng.choice(MODEL_NAMES)
     cfg = gen.gen_cfg(rng)
     explicit = regime is not None
-    regime = regime or rng.choice(["typical", "typical", "wide", "mismatch", "tiny_sigma", "huge_sigma", "corners", "round_numbers",
+    regime = regime or rng.choice(["typical", "typical", "wide", "mismatch", "tiny_sigma", "huge_sigma", "corners", "round_numbers", "coincidences",
                                    "identical", "equal_size"])
-    teams, regime = gen.gen_teams(rng, cfg["beta"], kmax=kmax, pmax=pmax, regime=regime)
+    teams, regime = gen.gen_teams(rng, cfg["beta"], kmax=kmax, pmax=pmax, regime=regime, default_rating=(cfg["mu"], cfg["sigma"]))
     if regime == "identical" and len(teams) >= 3 and rng.random() < 0.5:
         # only some teams identical: probability ties of size 2 or 3 among otherwise different teams
         other, _ = gen.gen_teams(rng, cfg["beta"], kmin=len(teams), kmax=len(teams), pmax=pmax, regime="typical")
